@@ -13,7 +13,9 @@ TRUSTED_EXTRA = ['modelled: resiliency_tester.diff_bytes_files, diff_count_files
                  'of main (error == 0); not modelled: config parsing, command execution, running averages, repair_power',
                  'float step diff/total*100 == 0 <=> diff == 0 for total > 0 is argued in DESIGN.md, not proved in Coq']
 ASSUMPTIONS = ['regular files: read() returns the bytes in order, fstat size is the length',
-               'recwalk enumerates each file of the reference tree once']
+               'recwalk enumerates each file of the reference tree once',
+               'restest main(): the reference tree holds at least one byte (on an all-empty tree the error rate is 0/0 and the tester '
+               'raises ZeroDivisionError instead of reporting; the statement is an "only if" about runs that do report)']
 
 
 def spec_bytes(a, b):
@@ -242,8 +244,8 @@ def run_restest_multi(ctx, n, d):
     for k in range(n):
         ref, bad = gen_tree(rng)
         bad = {p: c for p, c in bad.items() if p in ref}
-        if sum(max(len(c), len(bad.get(p, c))) for p, c in ref.items()) == 0:
-            continue
+        if sum(len(c) for c in ref.values()) == 0:
+            continue        # a reference tree without a single byte: the error RATE is 0/0 (restest raises ZeroDivisionError); outside the statement
         m = rng.choice([2, 3])
         bad_runs = rng.choice([[1], [1], [m], list(range(1, m + 1)), [], [1, m]])
         case = {'kind': 'restest-multi', 'ref': {p: c.hex() for p, c in ref.items()}, 'bad': {p: c.hex() for p, c in bad.items()},
